@@ -414,6 +414,10 @@ GENERIC_HELPERS = {"lex", "_consume_regex", "_consume_whitespace",
                    "is_spelling_of_punctuation", "get_punctuation_kind_from_name", "__new__", "__setattr__", "__getattr__"}
 
 
+DISPATCHERS = {"_parse_dialect_type_or_attribute_body", "_parse_extended_type_or_attribute", "parse_operation",
+               "parse_optional_operation", "_parse_generic_operation"}
+
+
 def _anchored(fn: str) -> bool:
     return "/xdsl/parser/" in fn or fn.endswith(("/utils/mlir_lexer.py", "/utils/lexer.py", "/utils/exceptions.py"))
 
@@ -433,6 +437,11 @@ def pick_site(frames):
         if frame_is_tier_b(fn):
             inner_b = inner_b or f"tierB/{os.path.basename(fn)}:{name}"
         elif _anchored(fn) and name not in GENERIC_HELPERS:
+            if inner_b is None and name in DISPATCHERS:
+                # the parser function that hands over to attribute / operation construction code: the Python-level sampler
+                # cannot see a callee that spends its time in one long C call (2**N) and returns, so time attributed to a
+                # pure dispatcher is time of the dialect / IRDL code it dispatched to
+                return f"tierB/{os.path.basename(fn)}:{name}(dispatch)"
             return inner_b or f"{os.path.basename(fn)}:{name}"
     if inner_b:
         return inner_b
@@ -467,12 +476,6 @@ def parse_once(text: str, unreg: bool, implicit: bool = True, verify_stage: bool
     exc = None
     module = None
     signal.setitimer(signal.ITIMER_VIRTUAL, budget(len(text)) / 2, 0.05)
-    if G.fh is None:
-        import tempfile
-        G.fh = tempfile.TemporaryFile(mode="w+")
-    # C-level stack samples (watchdog thread): unlike the Python-level sampler above they also see a frame that spends
-    # its time in one long C call (big-int arithmetic, regex) and returns right after it
-    faulthandler.dump_traceback_later(budget(len(text)) / 2, repeat=True, file=G.fh)
     t0 = time.process_time()
     try:
         module = Parser(ctx, text, "<c07>").parse_module(implicit)
@@ -499,21 +502,8 @@ def parse_once(text: str, unreg: bool, implicit: bool = True, verify_stage: bool
         rec["stage"] = "parse"
     rec["cpu"] = time.process_time() - t0
     signal.setitimer(signal.ITIMER_VIRTUAL, 0, 0)
-    faulthandler.cancel_dump_traceback_later()
     rec["tokens"] = G.tokens - tok0
     rec["slow_site"] = max(G.slow_hist.items(), key=lambda kv: kv[1])[0] if G.slow_hist else None
-    if G.fh.tell():
-        G.fh.seek(0)
-        hist = {}
-        for dump in G.fh.read().split("Stack (most recent call first):")[1:]:
-            frames = [(m.group(1), m.group(3)) for m in re.finditer(r'File "([^"]+)", line (\d+) in (\S+)', dump)]
-            if frames:
-                q = pick_site(frames)
-                hist[q] = hist.get(q, 0) + 1
-        G.fh.seek(0)
-        G.fh.truncate()
-        if hist:
-            rec["slow_site"] = max(hist.items(), key=lambda kv: kv[1])[0]
     if rec["outcome"] == "crash":
         tier, site, sfile, outer, summ = classify_exc(exc)
         rec.update(tier=tier, site=site, sfile=sfile, outer=outer, frames=summ, etype=type(exc).__name__,
